@@ -23,13 +23,20 @@ PYX = {"_propagate.pyx": "*", "heap.pxd": "*"}
 CASE_TIMEOUT = 60
 JOBS = int(os.environ.get("VERIF_C03_JOBS", str(max(4, min(14, (os.cpu_count() or 8) - 2)))))
 
-RULE = ("corpus (F7 witness, hand-written edge cases) first; then random cases: shapes 1x1..10x10 quick "
-        "(..40x40 thorough, skewed to 1xN/Nx1/2x2/3x3) x images {constant, 4-level quantised, dyadic, random, "
-        "blocky tenths (inexact sums, the F7 class), integer (exact stream)} x seeds {none, one, adjacent different, "
-        "sparse, dense, outside the mask} x masks {full, random, split by an unmasked wall} x weights "
-        "{0, 2^-10, 1, 1000, random} x array layouts {C, Fortran, strided views, int32/uint8 dtypes}; one case whose initial queue exceeds 1000 rows so the first push reallocates; "
-        "non-trivial = at least one non-seed pixel is reached and (two different seed labels are present or >= 5 "
-        "pixels are reached); distinct by hash of the case")
+RULE = ("corpus first: F7 witness, hand-written edge cases, 11 targeted key-sensitive scenes (1-ulp ties found with "
+        "the reference model under keys >>1 / >>2 / full), 3 malformed calls (mask None, shape mismatches: must raise); "
+        "then random scenes: shapes 1x1..7x7 (80 %), ..12x12 (thorough: ..40x40), skewed to 1xN/Nx1/2x2/3x3, x images "
+        "{constant, 4-level quantised, dyadic, random (half float32-representable), blocky tenths (inexact sums, the F7 "
+        "class), integer (exact stream)} x seeds {none, one, adjacent different, sparse, dense, sparse numbering, "
+        "boolean, values at the label dtype's maximum capped at 2^31-1, seeds outside the mask} x masks {full, random, "
+        "wall, bounding box short of the top / bottom / left / right edge with a seed on that edge} x weights {0, 2^-10, "
+        "1, 1000, random, negative}; every scene dressed with an image dtype (float64/32, int64/32/8, uint16/8, bool), a "
+        "label dtype (int8..int64, uint8..uint32, bool), a mask dtype (bool, uint8 0/1, uint8 0/255), a layout (C, "
+        "Fortran, strided view) and a weight form (float, int, np.float32, np.float64); every case is called twice in "
+        "the same process with another call in between; 16 F7-class scenes; the constructed realloc case (>1000 initial "
+        "rows); thin images 220x3 and 3x220 (thorough 600x3, 3x600, 60x60 queue>1000); non-trivial = at least one "
+        "non-seed pixel is reached and (two different seed labels are present or >= 5 pixels are reached); distinct by "
+        "hash of the case")
 TRUSTED = [
     "Coq kernel primitive floats (PrimFloat add/sub/mul/sqrt/ltb/eqb, of_uint63, ldshiftexp, frshiftexp, "
     "normfr_mantissa) taken as IEEE-754 binary64 round-to-nearest-even; validated on every run against NumPy on "
@@ -47,7 +54,8 @@ TRUSTED = [
     "the tight-chain hint given to the checker is computed by untrusted Python; it is verified by the checker",
 ]
 ASSUMPTIONS = [
-    "labels are non-negative integers < 2^31, image values are finite doubles, mask is boolean, weight is finite",
+    "labels are non-negative integers < 2^31 (larger uint32/int64 values wrap in the int32 output: candidate finding "
+    "C03-L1, excluded from the generator), image values are finite, mask is boolean or 0/nonzero uint8, weight is finite",
     "image has at least one row and one column",
 ]
 EXHAUSTIVE = {"quick": False, "thorough": False}
